@@ -192,6 +192,13 @@ func (e Engine) Generate(prop, tier string, run int, seed uint64) *kernel.Scenar
 	if kernel.NewRand(kernel.Derive(seed, "addr-style")).Bool(0.3) {
 		sc.Config["addr_style"] = 1 // wire identities that spell store-key syntax
 	}
+	if dr := kernel.NewRand(kernel.Derive(seed, "done-ctx")); dr.Bool(0.3) {
+		// callers whose context has already expired or been cancelled (clean-up
+		// after a peer that never answered): every done_ctx-th operation gets
+		// one. The store has no use for the context; what is in memory and
+		// what is stored must agree all the same.
+		sc.Config["done_ctx"] = int64(dr.Range(2, 5))
+	}
 	switch prop {
 	case "C10":
 		store, mode := c10Kind(tier, run)
